@@ -854,4 +854,78 @@ theorem validate_no_oob' (I : Inst) (P : Packing) : validate I P ≠ .error .oob
       rw [h2] at h
       exact checkBins_no_oob P.rowsR P.nBins h
 
+/-- a feasible packing uses at most as many bins as it has rows -/
+theorem feasible_bins_le (I : Inst) (rows : List Row) (k : Int) (h : Feasible I rows k) :
+    k ≤ (rows.length : Int) := by
+  obtain ⟨_, _, _, _, _, _, f7⟩ := h
+  have := length_ge_of_range_subset k.toNat (rows.map (·.bin)) (fun v h1 h2 => by
+    obtain ⟨a, ha, hab⟩ := f7 (v - 1).toNat (by rw [List.mem_range]; omega)
+    exact List.mem_map.mpr ⟨a, ha, by omega⟩)
+  rw [List.length_map] at this
+  omega
+
+theorem feasibleFast_eq (I : Inst) (rows : List Row) (k : Int) :
+    feasibleFast I rows k = feasibleB I rows k := by
+  unfold feasibleFast
+  split
+  · rename_i hk
+    unfold feasibleB
+    symm
+    rw [decide_eq_false_iff_not]
+    intro h
+    have := feasible_bins_le I rows k h
+    omega
+  · rfl
+
+theorem acceptsB_iff (I : Inst) (P : Packing) : acceptsB I P = true ↔ Accepts I P := by
+  unfold acceptsB Accepts
+  rw [feasibleFast_eq]
+  unfold feasibleB
+  simp only [Bool.and_eq_true, decide_eq_true_eq]
+  constructor
+  · rintro ⟨⟨⟨a, b⟩, c⟩, d⟩; exact ⟨a, b, c, d⟩
+  · rintro ⟨a, b, c, d⟩; exact ⟨⟨⟨a, b⟩, c⟩, d⟩
+
+theorem foldl_maxSize_le (items : List Item) (B : Int) : ∀ acc : Int, acc ≤ B →
+    (∀ it ∈ items, it.w ≤ B ∧ it.h ≤ B) →
+    items.foldl (fun m it => max (max m it.w) it.h) acc ≤ B := by
+  induction items with
+  | nil => intro acc h _; simpa using h
+  | cons a t ih =>
+    intro acc h hb
+    simp only [List.foldl_cons]
+    have := hb a (by simp)
+    exact ih _ (by omega) (fun it hit => hb it (by simp [hit]))
+
+theorem foldl_maxSize_ge (items : List Item) : ∀ acc : Int,
+    acc ≤ items.foldl (fun m it => max (max m it.w) it.h) acc := by
+  induction items with
+  | nil => intro acc; simp
+  | cons a t ih =>
+    intro acc
+    simp only [List.foldl_cons]
+    have := ih (max (max acc a.w) a.h)
+    omega
+
+/-- every instance the constructor accepts has a storage type (so `create()` works and the dtype
+clause of the property is satisfiable) -/
+theorem dtype?_isSome' (I : Inst) (hV : I.Valid) : ∃ t, I.dtype? = some t := by
+  obtain ⟨h1, h2, h3, h4, _, _, h7, h8⟩ := hV
+  have hms : I.maxSize ≤ I.maxDim := by
+    unfold Inst.maxSize
+    apply foldl_maxSize_le
+    · unfold Inst.maxDim; omega
+    · intro it hit; have := h7 it hit; omega
+  have hms0 : -1 ≤ I.maxSize := foldl_maxSize_ge I.items (-1)
+  have hnp := nItems_pos I ⟨h1, h2, h3, h4, ‹_›, ‹_›, h7, h8⟩
+  have hmd : I.maxDim ≤ 1000000000000 := by unfold Inst.maxDim; omega
+  have hmd1 : 1 ≤ I.maxDim := by unfold Inst.maxDim; omega
+  unfold Inst.dtype? dtypeFor
+  generalize hX : max (I.maxDim + I.maxSize + 1) (I.nItems + 1) = X
+  have hX1 : 0 ≤ X := by omega
+  have hX2 : X ≤ 9223372036854775807 := by omega
+  rw [if_neg (by omega)]
+  rw [← Option.isSome_iff_exists, List.find?_isSome]
+  exact ⟨DType.int64, by simp [DType.all], by simp [DType.lo, DType.hi, hX2]⟩
+
 end PackVal
